@@ -320,12 +320,12 @@ Proof.
               rewrite zget_cons_S in Hz by lia. destruct (C (i - 1) l0 Hz Hs0) as [Hi Hc].
               split; [lia|]. now replace (col + i) with (col + 1 + (i - 1)) by lia.
       * (* the cell is written *)
-        set (closing := repos && nonempty (s_link pen)).
-        set (pre := when repos (when closing [KLink [] []] ++ [KCup (row + 1) (col + 1)])).
-        set (pen1 := if closing then clear_link pen else pen).
         pose proof (write_cell t row col repos pen n Hrow Hcol ltac:(lia) Htr Wp (proj2 Hwf) Hcur Hadv) as Hw.
-        cbv zeta in Hw. fold closing pre pen1 in Hw.
-        set (t3 := interp tw t (pre ++ emit_delta cp pen1 (c_st n) ++ [cell_text cp n])) in *.
+        cbv zeta in Hw.
+        remember (interp tw t
+                    (when repos (when (repos && nonempty (s_link pen)) [KLink [] []] ++ [KCup (row + 1) (col + 1)]) ++
+                     emit_delta cp (if repos && nonempty (s_link pen) then clear_link pen else pen) (c_st n) ++
+                     [cell_text cp n])) as t3 eqn:Et3.
         destruct Hw as [S3 [T3 [R3 [C3 [O3 P3]]]]].
         assert (Hcols3 : tm_cols t3 = tm_cols t) by (destruct S3 as [_ [E _]]; exact E).
         assert (Hrows3 : tm_rows t3 = tm_rows t) by (destruct S3 as [E _]; exact E).
@@ -349,7 +349,7 @@ Proof.
           apply placed_right; [lia|exact Hc0|exact Hj]. }
         specialize (H ltac:(intros _; split; [exact R3|exact C3]) Hcl' Hold').
         destruct (render_cells cp refresh row ns ls (col + 1) (span n - 1) false (c_st n)) as [[o l'] p'].
-        cbv zeta in H |- *. rewrite interp_app. fold t3.
+        cbv zeta in H |- *. rewrite interp_app. rewrite <- Et3. clear Et3.
         destruct H as [S [T [W [O [F [D [L C]]]]]]].
         split; [exact (stable_trans _ _ _ S3 S)|]. split; [assumption|]. split; [assumption|].
         split; [intros r Hne; rewrite (O r Hne); apply O3; exact Hne|].
